@@ -250,7 +250,14 @@ def cache_correspondence(chk):
 
 def main():
     chk = common.Check('C03')
+    import time
+    timing, t_last = {}, [time.time()]
+    def tick(name):
+        now = time.time()
+        timing[name] = round(timing.get(name, 0) + now - t_last[0], 1)
+        t_last[0] = now
     chk.prove('I18n.Props.C03', generated=('state',))
+    tick('lean')
     rng = chk.rng
     pins_broken = bool(chk.broken)
     # the static scan again, in-process: search aid and coverage accounting (never a verdict by itself)
@@ -268,8 +275,10 @@ def main():
         suspects += [s['key'] + ' [' + s['root'] + ']' for s in scan_sites['mut'].sites if s['root'] not in ('localFresh', 'closure', 'selfAttr', 'perCallParam', 'element')]
         suspects += [c['key'] + ' [' + c['role'] + ' not per call]' for c in scan_sites['mut'].creations if not c['perCall']]
         suspects += [s['key'] + ' [nondeterminism: other]' for s in scan_sites['nondet'] if s['kind'] == 'other']
+    tick('scan')
     driver_correspondence(chk)
     cache_correspondence(chk)
+    tick('correspondence_streams')
     n_gen, n_corpus = (120, 120) if chk.thorough else (24, 20)
     found = []
     with E.Workdir() as wd:
@@ -280,6 +289,7 @@ def main():
         # 1. single-file reference runs (PYTHONHASHSEED=0, -j 1, fresh process each)
         ref = dict(zip(files, E.parallel(lambda f: E.run_cli([f], wd.path, hashseed='0'), files, workers=WORKERS)))
         chk.evaluations += len(files)
+        tick('reference_runs')
         nontrivial = {f for f, r in ref.items() if r['stdout'].strip()}
         chk.note_cases(nontrivial)
         bad_ref = [f for f, r in ref.items() if r['rc'] != 0 or r['stderr']]
@@ -293,10 +303,11 @@ def main():
             seeds = [str(s) for s in range(1, 17)]
         seed_files = [f for f in stable if cls[f] != 'big']
         def seeds_for(f):
-            # quick tier: every file under two more seeds, the files written to have several elements in every printed set under all of them
+            # quick tier: the files written to have several elements in every printed set under all seeds, the other hand-written ones under two,
+            # generated / corpus files under one more seed
             if chk.thorough or pins_broken or cls[f] in ('flags', 'xml'):
                 return seeds
-            return rng.sample(seeds, 2)
+            return rng.sample(seeds, 2 if cls[f].startswith(('cs:', 'twin:')) or cls[f] == 'plural' else 1)
         jobs = [(f, s) for f in seed_files for s in seeds_for(f)]
         outs = E.parallel(lambda js: E.run_cli([js[0]], wd.path, hashseed=js[1]), jobs, workers=WORKERS)
         chk.evaluations += len(jobs)
@@ -304,6 +315,7 @@ def main():
             if r['stdout'] != ref[f]['stdout']:
                 found.append({'kind': 'hash-seed', 'file': f, 'content': content(f)[:1500], 'seed_0': ref[f]['stdout'][:600], 'seed_' + s: r['stdout'][:600], 'seeds': ['0', s],
                               'suspect_sites': suspects[:8]})
+        tick('hash_seed_runs')
         # 3. multi-file invocations: lists that interleave charsets / formats / flags / file types, rotations, reversal, sub-lists;
         #    -j 1 / 2 / 3 / 5 with the big files early and in the middle; several hash seeds
         inter = interleave([(f, cls[f]) for f in stable], rng)
@@ -391,6 +403,7 @@ def main():
                 found.append({'kind': 'multi-file', 'jobs': j, 'seed': s, 'options': o, 'files': fl[:40], 'first_differing_file': culprit, 'minimal_history': minimal,
                               'expected_block': (table[culprit]['stdout'][:600] if culprit else None), 'got_from_there': got[pos:pos + 600], 'stderr': r['stderr'][-400:],
                               'suspect_sites': suspects[:8]})
+        tick('multi_file_runs')
         # 4. histories inside ONE process: the real main() with check_all called several times — the same relative paths with OTHER
         #    contents (second directory), reversed, twice in one list, then through the pool
         hand = [f for f in stable if cls[f] in ('flags', 'xml', 'twin:modifier', 'twin:type', 'twin:plural')] + [f for f in stable if cls[f].startswith('cs:')][:4] + [f for f in stable if cls[f] == 'plural'] + \
@@ -440,6 +453,8 @@ def main():
                                   'suspect_sites': suspects[:8]})
                     break
             traced = {k: set(v) for k, v in res.get('lines', {}).items()}
+        tick('in_process_phases')
+        chk.coverage['timing_s'] = timing
         # evidence: distribution, and which inventory sites the runs went through
         chk.coverage['determinism'] = {'files': len(files), 'by_class': {c: sum(1 for _f, k in classed if k == c) for c in sorted(set(cls.values()))},
                                        'files_with_output': len(nontrivial), 'excluded_crashing_files': bad_ref[:10],
